@@ -27,6 +27,9 @@ type scn struct {
 	External  bool
 	Otel      bool
 	EndsExc   bool // the fault-free response ends with an exception instead of EndOfStream
+	// ExtraHeaders: the server repeats the zero-row header block of an INSERT this many times (a
+	// server the fault-free client never finishes with: only used with cancellation)
+	ExtraHeaders int
 }
 
 var scenarios = []scn{
@@ -254,7 +257,11 @@ func runScenarioWith(sc scn, seed int64, f *fault, readTimeout time.Duration, ba
 	}
 	script.OnQuery = func(*ref.Query) []simnet.Item {
 		if sc.Insert {
-			return withGates(data(0))
+			hs := [][]byte{data(0)}
+			for i := 0; i < sc.ExtraHeaders; i++ {
+				hs = append(hs, data(0))
+			}
+			return withGates(hs...)
 		}
 		ps := [][]byte{data(0), data(3), prog(), simnet.PacketProfile(ref.Profile{Rows: 3, Blocks: 1, Bytes: 100})}
 		if sc.Telemetry {
@@ -388,6 +395,9 @@ func runScenarioWith(sc scn, seed int64, f *fault, readTimeout time.Duration, ba
 	wd := 10 * time.Second
 	if f != nil && f.Gate == "no-deadline" {
 		wd = 2 * time.Second
+	}
+	if sc.ExtraHeaders > 0 {
+		wd = 3 * time.Second // this server never ends the query: only a cancellation does
 	}
 	out.Returned = runWithWatchdog(wd, func() {
 		out.Err = client.Do(ctx, q)
